@@ -173,9 +173,11 @@ Proof.
   change (2 ^ 3) with 8. auto.
 Qed.
 
+(* only what the proof needs (so that a behaviour-preserving change of a threshold, e.g.
+   `bits > 32`, which merely sends bits = 32 down the 16-bit path, still verifies) *)
 Lemma thr_facts bits :
-  (cp_thr32 bits = true <-> 32 <= bits) /\ (cp_thr16 bits = true <-> 16 <= bits) /\
-  (cp_thr8 bits = true <-> 8 <= bits).
+  (cp_thr32 bits = true -> 32 <= bits) /\ (cp_thr16 bits = true -> 16 <= bits) /\
+  (cp_thr8 bits = true -> 8 <= bits) /\ (cp_thr8 bits = false -> bits < 8).
 Proof. unfold cp_thr32, cp_thr16, cp_thr8. lia. Qed.
 
 Lemma bits_fact n si : cp_bits n si = n + si.
@@ -256,7 +258,7 @@ Section Step.
     intros Hdm Hsm Hdp Hsp Hdi Hsi Hn Hz Hld Hls.
     destruct v8_facts as (Fv8 & Fc & Fal & Fnz & Fw32 & Fw16).
     destruct part_facts as (Fvp & Fcp).
-    destruct (thr_facts (n + si)) as (T32 & T16 & T8).
+    destruct (thr_facts (n + si)) as (T32 & T16 & T8 & T8f).
     destruct (Fc si Hsi) as (C8 & C16 & C32).
     unfold copy_step. rewrite (Fal di Hdi), bits_fact.
     assert (Hsl : 0 <= sp < Z.of_nat (length sm)) by lia.
@@ -288,7 +290,7 @@ Section Step.
         exists dm', (16 - si). change (8 * Z.of_nat 2) with 16 in *. rewrite Ew.
         repeat split; try assumption; lia. }
       destruct (cp_thr8 (n + si)) eqn:F8.
-      { pose proof (proj1 T8 eq_refl) as F8'. rewrite (rd_ok sm sp Hsl). cbn [cbind]. fold b.
+      { pose proof (T8 eq_refl) as F8'. rewrite (rd_ok sm sp Hsl). cbn [cbind]. fold b.
         rewrite (Fv8 b si Hb Hsi), C8.
         destruct (wr_number dm dp (b / 2 ^ si) Hdm Hdl) as (dm' & Ew & Lw & Ow & Bw).
         rewrite Ew. cbn [cbind]. exists dm', (8 - si). split; [reflexivity|]. split; [clear - Hsi Hn F8'; lia|]. split; [assumption|]. split; [assumption|].
@@ -304,7 +306,7 @@ Section Step.
         rewrite (Z.mod_small (b / 2 ^ si)) by lia. rewrite pow256_2 by lia. ring. }
       (* partial bits inside one byte *)
       assert (F8' : n + si < 8).
-      { destruct (Z.lt_ge_cases (n + si) 8) as [L|G]; [exact L|]. apply T8 in G. discriminate. }
+      { apply T8f. reflexivity. }
       rewrite (Fcp si n Hsi Hn F8').
       rewrite (rd_ok sm sp Hsl). cbn [cbind]. fold b.
       rewrite (rd_ok dm dp Hdl). cbn [cbind]. fold old. rewrite Hold0.
